@@ -584,8 +584,16 @@ func (w *AWorld) runLoop(o loopOpts) {
 	if o.clockMenu == nil {
 		o.clockMenu = defaultClockMenu
 	}
+	wake := true
+	picksBefore := w.sched.Picks
 	for n := 0; n < o.maxSteps; n++ {
 		synctest.Wait()
+		// idle service loops become eligible again once something changed -- decided here, at
+		// quiescence (never while the released goroutine may still be running)
+		if wake || w.sched.Picks > picksBefore {
+			w.sched.WakeIdle()
+		}
+		picksBefore = w.sched.Picks
 		w.observe()
 		if o.onQuiet != nil {
 			o.onQuiet()
@@ -631,13 +639,14 @@ func (w *AWorld) runLoop(o loopOpts) {
 			d := o.clockMenu[w.r.Choose("clock-step", len(o.clockMenu))]
 			w.r.Logf("step %d: clock +%v", w.step, d)
 			time.Sleep(d)
-			w.sched.WakeIdle()
+			wake = true
 			continue
 		}
 		a := cats[cat][w.r.Choose("which", len(cats[cat]))]
 		w.r.Logf("step %d: %s", w.step, a.desc)
+		// releasing a service loop that then finds nothing ready changes nothing (it goes idle)
+		wake = cat != 1 || strings.Contains(a.desc, " @")
 		a.do()
-		w.sched.WakeIdle()
 	}
 }
 
